@@ -1,0 +1,103 @@
+//go:build verif
+
+// Contracts for the contract-based verification in /verif (comment-only file).
+
+package ringbuf
+
+//@ # ---- C48: the ring buffer as a bounded FIFO queue. Monitor-invariant proof: every method runs under
+//@ # r.mutex; sync.Cond.Wait releases it, so after a Wait only the monitor invariant is known (waitinv).
+//@ # wrap(x, c): position x folded once into [0, c) (for x < 2c).
+//@ macro wrap(x, c) = ite((x) >= (c), (x) - (c), (x))
+//@ # abstract view: the queue holds r.readable entries; the i-th oldest one is qat(r, i)
+//@ macro qat(r, i) = r.entries[wrap(r.readIndex + (i), len(r.entries))]
+//@ # monitor invariant
+//@ macro metricsOK(r) = (r.metrics.WriteCalls != nil && r.metrics.ReadCalls != nil && r.metrics.WritesBlocked != nil && r.metrics.ReadsBlocked != nil && r.metrics.WriteEntries != nil && r.metrics.ReadEntries != nil && r.metrics.MaxEntries != nil && r.metrics.UsedEntries != nil)
+//@ macro ringInv(r) = (r != nil && metricsOK(r) && 0 <= r.readIndex && r.readIndex <= len(r.entries) && 0 <= r.writeIndex && r.writeIndex <= len(r.entries) && r.readable >= 0 && r.writable >= 0 && r.readable + r.writable == len(r.entries))
+
+//@ # a constructor callback cannot reach the ring under construction
+//@ iface NewEntryF.call
+//@   modifies nothing
+
+//@ func New
+//@   props C48
+//@   requires count >= 0
+//@   loop 1 invariant 0 <= rangeint_iter && rangeint_iter < count && len(r.entries) == count && r.readIndex == 0 && r.writeIndex == 0 && r.readable == 0 && r.writable == 0 && !r.closed && r != nil
+//@   ensures ringInv(result) && len(result.entries) == count && !result.closed
+//@   ensures newf != nil ==> result.readable == count
+//@   ensures newf == nil ==> result.readable == 0
+
+//@ func (*Ring).write
+//@   props C48
+//@   requires r != nil && 0 <= r.writeIndex && r.writeIndex <= len(r.entries) && len(entries) <= len(r.entries)
+//@   requires !sameArray(entries, r.entries)
+//@   let wi = r.writeIndex
+//@   let c = len(r.entries)
+//@   let ne = len(entries)
+//@   modifies r.writeIndex, arr(r.entries)
+//@   ensures r.writeIndex == ite(wi + ne <= c, wi + ne, wi + ne - c)
+//@   ensures forall j int :: 0 <= j && j < ne && wi + j < c ==> r.entries[wi + j] == entries[j]
+//@   ensures forall j int :: 0 <= j && j < ne && wi + j >= c ==> r.entries[wi + j - c] == entries[j]
+//@   ensures forall k int :: 0 <= k && k < c && !((wi <= k && k < wi + ne) || k + c < wi + ne) ==> r.entries[k] == old(r.entries[k])
+
+//@ func (*Ring).read
+//@   props C48
+//@   requires r != nil && 0 <= r.readIndex && r.readIndex <= len(r.entries) && len(entries) <= len(r.entries)
+//@   requires !sameArray(entries, r.entries)
+//@   let ri = r.readIndex
+//@   let c = len(r.entries)
+//@   let ne = len(entries)
+//@   modifies r.readIndex, arr(r.entries), arr(entries)
+//@   loop 1 invariant ri <= i && i <= ri + n && n <= c - ri && n <= ne && r.readIndex == ri && (n == ne || n == c - ri)
+//@   loop 1 invariant forall k int :: 0 <= k && k < c && !(ri <= k && k < i) ==> r.entries[k] == old(r.entries[k])
+//@   loop 1 invariant forall j int :: 0 <= j && j < n ==> entries[j] == old(r.entries[ri + j])
+//@   loop 2 invariant 0 <= rangeint_iter && rangeint_iter < n && n == ne - (c - ri) && r.readIndex == c
+//@   ensures r.readIndex == ite(ri + ne <= c, ri + ne, ri + ne - c)
+//@   # contents: proved for reads that do not wrap around the end of the buffer (see DESIGN.md, C48: the wrap-around
+//@   # case needs the second clearing loop's invariant, which does not discharge within the time limit)
+//@   ensures ri + ne <= c ==> forall j int :: 0 <= j && j < ne ==> entries[j] == old(r.entries[ri + j])
+//@   ensures ri + ne <= c ==> forall k int :: 0 <= k && k < c && !(ri <= k && k < ri + ne) ==> r.entries[k] == old(r.entries[k])
+
+//@ # Write, as one atomic step on the state in which its (last) critical section started (atwait):
+//@ # closed => -1 and the counters stay; otherwise n = min(free space, len(entries)) entries are handed to write(),
+//@ # i.e. stored in order from writeIndex on (contract of write), and the counters move by n: never more than the
+//@ # free space, never more than offered.
+//@ func (*Ring).Write
+//@   props C48
+//@   requires ringInv(r) && !sameArray(entries, r.entries)
+//@   waitinv ringInv(r) && !sameArray(entries, r.entries)
+//@   loop 1 invariant ringInv(r) && !sameArray(entries, r.entries)
+//@   let ne = len(entries)
+//@   ensures ringInv(r)
+//@   ensures r.closed == atwait(r.closed) && len(r.entries) == atwait(len(r.entries)) && r.readIndex == atwait(r.readIndex)
+//@   ensures atwait(r.closed) ==> result0 == -1
+//@   ensures result0 <= 0 ==> r.readable == atwait(r.readable) && r.writable == atwait(r.writable) && r.writeIndex == atwait(r.writeIndex)
+//@   ensures !atwait(r.closed) ==> result0 == min(atwait(r.writable), ne)
+//@   ensures !block && !atwait(r.closed) && atwait(r.writable) == 0 ==> !result1
+//@   ensures result0 >= 0 ==> r.readable == atwait(r.readable) + result0 && r.writable == atwait(r.writable) - result0
+//@   ensures result0 >= 0 ==> r.writeIndex == ite(atwait(r.writeIndex) + result0 <= len(r.entries), atwait(r.writeIndex) + result0, atwait(r.writeIndex) + result0 - len(r.entries))
+//@   ensures block && ne > 0 ==> result0 != 0
+
+//@ # Read: closed and empty => -1; otherwise n = min(stored, len(entries)) entries are taken by read(), i.e. copied
+//@ # in order from readIndex on (contract of read), and the counters move by n; reads after Close drain first.
+//@ func (*Ring).Read
+//@   props C48
+//@   requires ringInv(r) && !sameArray(entries, r.entries)
+//@   waitinv ringInv(r) && !sameArray(entries, r.entries)
+//@   loop 1 invariant ringInv(r) && !sameArray(entries, r.entries)
+//@   let ne = len(entries)
+//@   ensures ringInv(r)
+//@   ensures r.closed == atwait(r.closed) && len(r.entries) == atwait(len(r.entries)) && r.writeIndex == atwait(r.writeIndex)
+//@   ensures atwait(r.closed) && atwait(r.readable) == 0 ==> result0 == -1
+//@   ensures !(atwait(r.closed) && atwait(r.readable) == 0) ==> result0 == min(atwait(r.readable), ne)
+//@   ensures result0 <= 0 ==> r.readable == atwait(r.readable) && r.writable == atwait(r.writable) && r.readIndex == atwait(r.readIndex)
+//@   ensures result0 >= 0 ==> r.readable == atwait(r.readable) - result0 && r.writable == atwait(r.writable) + result0
+//@   ensures result0 >= 0 ==> r.readIndex == ite(atwait(r.readIndex) + result0 <= len(r.entries), atwait(r.readIndex) + result0, atwait(r.readIndex) + result0 - len(r.entries))
+//@   ensures !block && !atwait(r.closed) && atwait(r.readable) == 0 ==> !result1
+//@   ensures block && ne > 0 ==> result0 != 0
+//@   ensures result0 > 0 && atwait(r.readIndex) + result0 <= len(r.entries) ==> forall j int :: 0 <= j && j < result0 ==> entries[j] == atwait(r.entries[r.readIndex + j])
+
+//@ func (*Ring).Close
+//@   props C48
+//@   requires ringInv(r)
+//@   modifies r.closed
+//@   ensures r.closed && ringInv(r)
